@@ -307,6 +307,39 @@ def gen_schedblock(rng):
     return sc
 
 
+def gen_preblock(rng):
+    """a pre-emptive shift change hits blocked customers, often: a scheduled node with a queue (customers wait before
+    service) feeds a small slow node, optionally together with a second source.  This is the region of finding F4;
+    the specification reproduces what the code does there, so anything else that goes wrong is still seen (R4)"""
+    three = rng.random() < 0.4
+    N = 3 if three else 2
+    base = gen_tandem(rng, N=N, K=1)
+    base["prio"] = [0]
+    base["syscap"] = INF
+    m = rng.randint(2, 3)
+    nums = [rng.choice([1, 2]) if j % 2 == 0 else rng.choice([0, 1]) for j in range(m)]
+    ends, t = [], 0
+    for _ in range(m):
+        t += rng.randint(2, 5)
+        ends.append(t)
+    base["nodes"][0].update({"kind": "sched", "c": 0, "qcap": INF,
+                             "sched": {"nums": nums, "ends": ends, "pre": rng.choice([1, 1, 2, 3]), "off": rng.choice([0, 0, 1])}})
+    for n in range(1, N):
+        base["nodes"][n].update({"kind": "std", "c": 1, "qcap": INF})
+    base["nodes"][N - 1]["qcap"] = rng.choice([0, 0, 1])
+    base["arrS"] = [[samples(rng, 1, 2, 2)]] + [[[]] for _ in range(N - 1)]
+    base["svcS"] = [[samples(rng, 1, 4, 2)] for _ in range(N)]
+    base["svcS"][N - 1] = [samples(rng, 3, 8, 2)]
+    if three:
+        base["arrS"][1] = [samples(rng, 2, 4, 2)]
+        base["route"] = [tm([[0, 0, 4], [0, 0, 4], [0, 0, 0]])]
+    else:
+        base["route"] = [tm([[0, 4], [0, 0]])]
+    base.pop("batchS", None)
+    base["T"] = rng.randint(20, 45)
+    return base
+
+
 def gen_reroute(rng):
     """'reroute' pre-emption (priority pre-emption or pre-emptive schedule): documented capacity exception"""
     K = 2
@@ -908,6 +941,7 @@ def gen_stopcount(rng):
 
 
 FAMILIES = {
+    "preblock": gen_preblock,
     "slotren": gen_slotren,
     "ppccw": gen_ppccw,
     "eps": gen_eps,
